@@ -1287,6 +1287,41 @@ func (s *Sess) manyBigFrees() {
 	}
 	s.fullCheck("dump", "after an orderly shutdown with three background frees in flight")
 	s.res.Stats.Add("orderly-shutdown-with-frees-in-flight")
+	// more background frees in flight than any plausible cap on their number:
+	// 72 sparse files (one data block beyond file block 600 each) are truncated
+	// back to back while the shrinker threads are held at their first iteration
+	root = s.srv.Root
+	dirBlocks := func() uint64 { // the root directory grows with the names (directories never shrink)
+		return (doOp(s.srv.API, &Op{K: OpGetattr, H: root}).Size + BlockSize - 1) / BlockSize
+	}
+	rootBlocks0 := dirBlocks()
+	var sp [][]byte
+	for i := 0; i < 72; i++ {
+		r := s.exec(&Op{K: OpCreate, H: root, Name: fmt.Sprintf("sparsefree%d", i)})
+		if r.Stat != stOK {
+			break
+		}
+		s.nextUid++
+		s.exec(&Op{K: OpWrite, H: r.FH, Off: uint64(600+i) * BlockSize, Count: 100, DataLen: 100, Uid: s.nextUid, Stable: 0})
+		sp = append(sp, r.FH)
+	}
+	s.srv.WaitIdle()
+	mon.HoldShrinkers()
+	for _, fh := range sp {
+		s.exec(&Op{K: OpSetattr, H: fh, SetSize: true, Size: 0})
+	}
+	held := mon.ReleaseShrinkers()
+	s.srv.WaitIdle()
+	for i := range sp {
+		s.exec(&Op{K: OpRemove, H: root, Name: fmt.Sprintf("sparsefree%d", i)})
+	}
+	s.srv.WaitIdle()
+	st = s.srv.N.VerifFsState()
+	if f, grown := st.Balloc.NumFree(), dirBlocks()-rootBlocks0; f+grown != free0 {
+		s.viol("leak", "72 sparse files truncated with %d background frees held in flight, then removed: %d blocks free before, %d after (the root directory grew by %d blocks)", held, free0, f, grown)
+	}
+	s.fullCheck("dump", "after 72 background frees in flight together")
+	s.res.Stats.Add(fmt.Sprintf("background-frees-held-in-flight-%d", held/8*8))
 }
 
 // fillDisk leaves only a handful of free blocks.
